@@ -44,21 +44,23 @@ def aesthetics(flux, invvar, method='traditional'):
         elif method == 'mean':
             newflux = flux.copy()
             goodpts = invvar > 0
-            newflux[~goodpts] = newflux[goodpts].mean()
+            if goodpts.any():
+                newflux[~goodpts] = newflux[goodpts].mean()
         elif method == 'damp':
             l = 250  # damping length in pixels
             goodpts = invvar.nonzero()[0]
             nflux = flux.size
-            mingood = goodpts.min()
-            maxgood = goodpts.max()
             newflux = djs_maskinterp(flux, invvar == 0, const=True)
             pixels = np.arange(nflux, dtype='f')
-            if mingood > 0:
-                damp1 = float(min(mingood, l))
-                newflux *= 0.5*(1.0+erf((pixels-mingood)/damp1))
-            if maxgood < (nflux - 1):
-                damp2 = float(min(maxgood, l))
-                newflux *= 0.5*(1.0+erf((maxgood-pixels)/damp2))
+            if goodpts.size > 0:
+                mingood = goodpts.min()
+                maxgood = goodpts.max()
+                if mingood > 0:
+                    damp1 = float(min(mingood, l))
+                    newflux *= 0.5*(1.0+erf((pixels-mingood)/damp1))
+                if maxgood < (nflux - 1):
+                    damp2 = float(min(maxgood, l))
+                    newflux *= 0.5*(1.0+erf((maxgood-pixels)/damp2))
         elif method == 'nothing':
             newflux = flux.copy()
         else:
